@@ -116,6 +116,15 @@ def row_columns(doc: docgen.Doc):
     return out
 
 
+# texts imported by the re-entrant callback: (text, number of errors it must report)
+NESTED_TEXTS = [
+    ('**kern\t**text\n4c\tla\n4c\u00fc\tx\n4g\t.\n*-\t*-\n', 1),
+    ('**kern\n*clefG2\n=1\n4e\n#4c\n8.\n4f\n*-\n', 2),
+    ('**text\t**kern\t**kern\nfoo\t4c\t4e\n.\t4d\t4\u00a7\n*-\t*-\t*-\n', 1),
+    ('**kern\t**dynam\n4c\tp\n4d\tf\n*-\t*-\n', 0),
+]
+
+
 class C12:
     PROPERTY = 'C12'
     TIERS = {
@@ -140,7 +149,7 @@ class C12:
     PROBES = ['fault_after_split', 'fault_in_subspine', 'fault_after_join', 'adjacent_faults', 'fault_in_non_kern', 'fault_in_last_row',
               'fault_in_bar_row', 'fault_in_interp_row', 'two_imports_one_process', 'history_err_then_valid', 'blank_line_before_fault',
               'fault_in_second_kern_spine', 'later_kern_cell_after_fault', 'dropped_row_resurrected', 'leading_blank_line', 'interrupt_delivered', 'same_malformed_text_twice_in_a_row',
-              'damaged_text_loaded_from_file', 'file_import_under_non_utf8_locale']
+              'damaged_text_loaded_from_file', 'file_import_under_non_utf8_locale', 'reentrant_import_delivered', 'measure_range_export_checked']
 
     # ---------------------------------------------------------------- plan
     def gen_plan(self, seed, index, tier):
@@ -209,7 +218,10 @@ class C12:
                 'via': 'file' if erng.random() < 0.2 else 'string',
                 'fs': {'io_seed': erng.randrange(1 << 30), 'chunking': erng.choice(['small', 'tiny', 'tiny', 'whole']),
                        'locale': erng.choice(['utf-8', 'latin-1', 'ascii', 'cp1252']), 'faults': [], 'actor': [],
-                       'eintr': erng.random() < 0.4, 'pathtype': erng.choice(['str', 'Path'])}}
+                       'eintr': erng.random() < 0.4, 'pathtype': erng.choice(['str', 'Path'])},
+                # re-entrancy: at a seeded line event of the damaged import a callback (signal handler, finalizer, logging hook)
+                # imports ANOTHER text - damaged too - and returns; two imports are then in flight at once without any thread
+                'reenter': {'k_u': erng.randrange(1 << 30), 'which': erng.randrange(len(NESTED_TEXTS))} if erng.random() < 0.15 else None}
 
     def _gen_history(self, st):
         rng, frng, erng = st['ops'], st['faults'], st['env']
@@ -315,6 +327,8 @@ class C12:
             try:
                 if plan.get('via') == 'file':
                     bad_doc, bad_err = self._load_via_file(kp, plan, bad_text, probes, bump, faults_fired)
+                elif plan.get('reenter'):
+                    bad_doc, bad_err = self._loads_with_nested_import(kp, plan, bad_text, add_v, probes, bump, faults_fired, log)
                 else:
                     bad_doc, bad_err = kp.loads(bad_text)
             except Exception as e:
@@ -343,6 +357,41 @@ class C12:
 
         nontrivial = any(headers[doc.rows[f['row']].cells[f['col']].spine] in KERN_PARSED for f in faults) and probes.get('later_kern_cell_after_fault', 0) > 0
         return self._result(plan, log, viol, faults_fired, probes, doc, nontrivial)
+
+    @staticmethod
+    def _loads_with_nested_import(kp, plan, text, add_v, probes, bump, faults_fired, log):
+        """kp.loads(text) during which, at a seeded kernpy line event, a callback imports another damaged text."""
+        from simkit import interrupt as intr
+        from simkit.runner import kernpy_src
+        ntext, nerrs = NESTED_TEXTS[plan['reenter']['which'] % len(NESTED_TEXTS)]
+
+        def nested():
+            d, e = kp.loads(ntext)
+            return [errors_snapshot(e), kp.dumps(d, encoding=kp.Encoding.eKern)]
+        alone = nested()
+        if len(alone[0]) != nerrs:
+            add_v('nested-import-wrong', 'nested-import-wrong/alone', nerrs, len(alone[0]))
+        inj = intr.injector(kernpy_src())
+        total = inj.count_events(lambda: kp.loads(text))
+        if total <= 0:
+            return kp.loads(text)
+        got = {}
+
+        def cb():
+            try:
+                got['v'] = nested()
+            except Exception as e:          # the nested import must not raise either
+                got['v'] = 'raised ' + type(e).__name__
+        delivered, out = inj.run_with_callback(lambda: kp.loads(text), 1 + plan['reenter']['k_u'] % total, cb)
+        bump(faults_fired, 'reentrant_import')
+        log.emit('fault', 'reentrant-import', plan['reenter']['which'], [delivered, out[0]])
+        if delivered:
+            bump(probes, 'reentrant_import_delivered')
+            if got.get('v') != alone:
+                add_v('reentrancy', 'reentrancy/nested-import-differs', alone, got.get('v'))
+        if out[0] != 'ok':
+            raise out[1]
+        return out[1]
 
     @staticmethod
     def _load_via_file(kp, plan, text, probes, bump, faults_fired):
@@ -656,6 +705,71 @@ class C12:
                               encoding=enc_name, kind=fpos[pos]['kind'])
                     else:
                         add_v('other-cell-changed-in-export', 'other-cell-changed-in-export/' + enc_name, want, got, row=ri, pos=pos)
+            if enc_name == 'ekern':
+                self._check_measure_range(kp, doc, faults, ref_doc, bad_doc, ref_lines, plan_rows, expected, masked, add_v, probes, bump, log)
+
+    @staticmethod
+    def _is_subsequence(needle, hay):
+        it = iter(hay)
+        for x in needle:
+            for y in it:
+                if x == y:
+                    break
+            else:
+                return x
+        return None
+
+    def _check_measure_range(self, kp, doc, faults, ref_doc, bad_doc, ref_lines, plan_rows, expected, masked, add_v, probes, bump, log):
+        """The export BY MEASURES of the damaged document, first measure to last: every row from the (undamaged) first measure on
+        is still there, malformed cells verbatim in place. Calibrated on the undamaged document first (what is demanded of the
+        damaged import is only what the clean import of the same score satisfies); applied only when all the damage is in data rows."""
+        if any(doc.rows[f['row']].kind != 'data' for f in faults):
+            # a damaged barline changes the measure structure itself; a damaged interpretation changes the signature context that
+            # an excerpt re-creates in its head (C08's subject, not C12's): only damage in DATA rows is judged here
+            return
+        ms_ref = list(getattr(ref_doc, 'measure_start_tree_stages', []) or [])
+        ms_bad = list(getattr(bad_doc, 'measure_start_tree_stages', []) or [])
+        if not ms_ref or not ms_bad:
+            return
+        first_row = ms_ref[0] - 1           # tree stage s holds text row s - 1
+        enc = kp.Encoding.eKern
+
+        def lines_of(text):
+            ls = text.split('\n')
+            return ls[:-1] if ls and ls[-1] == '' else ls
+        try:
+            range_ref = lines_of(kp.dumps(ref_doc, encoding=enc, from_measure=1, to_measure=len(ms_ref)))
+        except Exception:
+            return
+        kept_rows = [ri for ri, cols, kept in plan_rows if kept]
+        ref_tail = [ln for ri, ln in zip(kept_rows, ref_lines) if ri >= first_row]
+        if self._is_subsequence(ref_tail, range_ref) is not None:
+            bump(probes, 'measure_range_not_calibrated')
+            return
+        try:
+            range_bad = lines_of(kp.dumps(bad_doc, encoding=enc, from_measure=1, to_measure=len(ms_bad)))
+        except Exception:
+            # the excerpt's head re-creates the signature context by scanning each spine down to its first note; an error token
+            # where a note was lets that scan run on (Exporter.is_signature_cancelled) and the excerpt may raise 'Node signature
+            # mismatch'. That is the excerpt machinery of C08 (whose remaining classes are tracked as findings by its own text),
+            # and C12 does not quantify over export options: counted, not judged (DESIGN 8.11)
+            bump(probes, 'measure_range_export_raised_on_damaged')
+            return
+        tail = []
+        for ri, cells, fpos in expected:
+            if ri < first_row:
+                continue
+            cols = plan_rows[ri][1]
+            if any((ri, cols[pos]) in masked for pos in fpos):
+                continue            # a cell already reported (shortened / altered): its row is compared by the full export only
+            tail.append('\t'.join(cells))
+        log.emit('client', 'dumps-damaged:measure-range', [len(ms_ref), len(ms_bad)], digest_of(range_bad))
+        missing = self._is_subsequence(tail, range_bad)
+        if missing is not None:
+            add_v('export-row-missing', 'export-row-missing/measure-range', missing, range_bad[:12], first_measure_row=first_row,
+                  measures=[len(ms_ref), len(ms_bad)])
+        else:
+            bump(probes, 'measure_range_export_checked')
 
     def _exec_history(self, plan):
         from kernpy.core import createImporter
@@ -722,7 +836,8 @@ class C12:
         placement = sorted((f['kind'], doc.rows[f['row']].kind) for f in plan['faults'])
         shape = digest_of([doc.shape(), placement, bool(plan.get('blank_lines'))])
         return {'digest': log.digest(), 'events': log.seq, 'faults': faults_fired, 'probes': probes, 'shape': shape,
-                'nontrivial': nontrivial, 'config': plan['config'], 'violations': viol, 'extra': {}}
+                'nontrivial': nontrivial, 'config': plan['config'], 'violations': viol, 'extra': {},
+                'hash_sensitive': bool(plan.get('reenter')) and plan.get('via') != 'file' and bool(plan['faults'])}
 
     # ---------------------------------------------------------------- minimisation
     def shrink(self, plan, still_fails, budget):
